@@ -685,3 +685,43 @@ theorem mem_ne_nil {x : Nat} {rs : List Rg} (h : mem x rs) : rs ≠ [] := by
   intro hn; subst hn; obtain ⟨q, hq, _⟩ := h; cases hq
 
 end AQ.Ack
+
+namespace AQ.Ack
+open AQ AQ.RangeSet AQ.Recovery
+
+theorem dwf_lt (start : Int) (older : List Rg) (h : DWF start older) : ∀ q ∈ older, (q.stop : Int) < start := by
+  induction older generalizing start with
+  | nil => intro q hq; cases hq
+  | cons r rest ih =>
+    obtain ⟨h1, h2, h3⟩ := h
+    intro q hq
+    rcases List.mem_cons.mp hq with h | h
+    · subst h; exact h1
+    · have := ih _ h3 q h; omega
+
+/-- in a well-formed range set the largest member lies in the last range -/
+theorem largest_in_last (rs : List Rg) (r : Rg) (older : List Rg) (hwf : WF rs) (hrev : rs.reverse = r :: older)
+    (pn : Nat) (hm : mem pn rs) (hmax : ∀ x, mem x rs → x ≤ pn) : r.start ≤ pn ∧ pn < r.stop := by
+  have hrs : rs = older.reverse ++ [r] := by
+    have := congrArg List.reverse hrev; simpa using this
+  have ⟨hr, hd⟩ := dwf_of_wf r older (by rw [← hrs]; exact hwf)
+  have hrmem : r ∈ rs := by rw [hrs]; simp
+  have hle : r.stop - 1 ≤ pn := hmax (r.stop - 1) ⟨r, hrmem, by omega, by omega⟩
+  obtain ⟨q, hq, hq1, hq2⟩ := hm
+  rw [hrs] at hq
+  rcases List.mem_append.mp hq with h | h
+  · have := dwf_lt _ _ hd q (List.mem_reverse.mp h)
+    omega
+  · simp only [List.mem_singleton] at h; subst h; exact ⟨hq1, hq2⟩
+
+/-- however many older ranges `max_size` cuts off, the range holding the largest
+    queued packet number is written -/
+theorem pushAckFrame_covers_largest (rs : List Rg) (de : Nat) (ms : Option Int) (vals : List Nat) (n : Nat)
+    (h : pushAckFrame rs de ms = .ok (vals, n)) (hwf : WF rs) (pn : Nat) (hm : mem pn rs)
+    (hmax : ∀ x, mem x rs → x ≤ pn) : ∃ lh ∈ wireRanges vals, lh.1 ≤ (pn : Int) ∧ (pn : Int) ≤ lh.2 := by
+  obtain ⟨r, older, k, hrev, _, _, hw, _⟩ := pushAckFrame_wire rs de ms vals n h
+  have ⟨h1, h2⟩ := largest_in_last rs r older hwf hrev pn hm hmax
+  refine ⟨((r.start : Int), (r.stop : Int) - 1), ?_, by simp; omega, by simp; omega⟩
+  rw [hw]; simp
+
+end AQ.Ack
